@@ -1056,7 +1056,7 @@ def _worker(task):
 
 
 def search(seed, tier):
-    nsynth, chunks = (150, 4) if tier == 'quick' else (1200, 16)
+    nsynth, chunks = (100, 4) if tier == 'quick' else (500, 16)
     modules = sorted(set(m for m, f in CHECKS if m != 'stdnum.isin'))
     tasks = [(seed, tier, m, i, nsynth) for m in modules for i in range(chunks if SYNTH_SOURCES.get(m) else 1)]
     col = E.Collector()
